@@ -60,8 +60,11 @@ def run_extra(ctx):
                 f = os.path.join(work, "e2e.txt")
                 open(f, "w").write("\n".join(lines) + "\n")
                 sub = rnd.pick(["histo", "table", "table-cols", "bars"])
+                topn = None
                 if sub == "histo":
-                    cmd = [exe, "histo", "-m", r"(\S+) (\d+)", "-e", "{$ {1} {2}}", "--sort", mode, "-n", "100"]
+                    # -n N: the cut comes after the sort – the first N rows of the specified order, whatever the delivery
+                    topn = rnd.pick([100, 100, 1, 2, 3, len(keys)])
+                    cmd = [exe, "histo", "-m", r"(\S+) (\d+)", "-e", "{$ {1} {2}}", "--sort", mode, "-n", str(topn)]
                 elif sub == "bars":
                     cmd = [exe, "bars", "-m", r"(\S+) (\d+)", "-e", "{$ {1} k {2}}", "--sort", mode]
                 elif sub == "table-cols":
@@ -80,10 +83,13 @@ def run_extra(ctx):
                         w = l.split()
                         if len(w) >= 2 and w[0] in keys:
                             got.append(w[0])
-                if rc != 0 or got != want:
+                if rc != 0 or got != (want if topn is None else want[:topn]):
                     violations.append({"key": "e2e-order", "cmd": " ".join(cmd[1:]), "data": lines, "sort": mode,
-                                       "cli_order": got, "spec_order": want, "rc": rc, "stderr": err.decode("utf8", "replace")[-300:]})
+                                       "cli_order": got, "spec_order": want if topn is None else want[:topn], "rc": rc,
+                                       "stderr": err.decode("utf8", "replace")[-300:]})
                     break
+                if topn is not None and topn < len(keys):
+                    continue
                 if seen is not None and seen != got:
                     violations.append({"key": "e2e-unstable", "cmd": " ".join(cmd[1:]), "sort": mode, "orders": [seen, got]})
                     break
